@@ -27,7 +27,7 @@
 -/
 import EnvVerif.Lemmas.ObscureLemmas
 namespace EnvVerif
-open Env
+open Env ToyDeps Obs.Ex
 
 section
 variable (h : Hash) (Z : Deflate)
@@ -35,7 +35,7 @@ variable (h : Hash) (Z : Deflate)
 /-! ### `compress` -/
 
 /-- exact refusal conditions -/
-theorem compress_ok_iff (e : Env) :
+theorem compress_succeeds_iff (e : Env) :
     (∃ z, compress Z e = .ok z) ↔ (e.isEncrypted = false ∧ e.isElided = false) := by
   cases e <;> simp [compress, Env.isEncrypted, Env.isElided]
 
@@ -45,7 +45,7 @@ theorem compress_err_iff (e : Env) (x : String) :
       (x = "AlreadyEncrypted" ∧ e.isEncrypted = true) ∨ (x = "AlreadyElided" ∧ e.isElided = true) := by
   cases e <;> simp [compress, Env.isEncrypted, Env.isElided, eq_comm]
 
-theorem compress_no_panic (e : Env) (s : String) : compress Z e ≠ .panic s := by
+theorem compress_never_panics (e : Env) (s : String) : compress Z e ≠ .panic s := by
   cases e <;> simp [compress]
 
 /-- `compress` of a compressed envelope is that envelope -/
@@ -57,8 +57,12 @@ theorem compress_shape (e z : Env) (hc : e.isCompressed = false) (hz : compress 
     z = .compressed (compressedOf Z (encode e)) e.digest :=
   (Obs.compress_ok_of Z hc hz).1
 
+example : compress toyDeflate2 nd = .ok (.compressed (compressedOf toyDeflate2 (encode nd)) nd.digest) ∧
+    (compressedOf toyDeflate2 (encode nd)).data.length < (encode nd).length :=
+  ⟨congrArg Res.ok (compress_shape toyDeflate2 nd _ rfl rfl), by decide⟩
+
 /-- C13: compression keeps the digest -/
-theorem compress_digest (e z : Env) (hz : compress Z e = .ok z) : z.digest = e.digest := by
+theorem compress_keeps_digest (e z : Env) (hz : compress Z e = .ok z) : z.digest = e.digest := by
   cases hc : e.isCompressed with
   | false => rw [compress_shape Z e z hc hz]; rfl
   | true =>
@@ -93,6 +97,12 @@ theorem compress_inv (e z : Env) (hi : Inv h e) (hH : ∀ b, (h.H b).Valid)
     | compressed c d => cases hz; exact hi
     | _ => cases hc
 
+example : ∃ z, compress toyDeflate nd = .ok z ∧ Inv toyHash z ∧ z.digest = nd.digest ∧
+    z.isCompressed = true ∧ compress toyDeflate z = .ok z :=
+  ⟨_, rfl, compress_inv toyHash toyDeflate nd _ nd_inv toyHash_valid rfl,
+    compress_keeps_digest toyDeflate nd _ rfl, compress_isCompressed toyDeflate nd _ rfl,
+    compress_idempotent toyDeflate nd _ rfl⟩
+
 /-! ### `uncompress` -/
 
 /-- C13: uncompressing what `compress` made of an envelope that was not yet compressed
@@ -102,9 +112,31 @@ theorem uncompress_compress (L : DeflateLaws Z) (e z : Env) (hrt : RoundTrips h 
   rw [compress_shape Z e z hc hz]
   exact Obs.uncompress_compressedOf h L hrt
 
+/- all hypotheses hold together — with the toy that stores, and with the toy that deflates -/
+example : ∃ z, compress toyDeflate nd = .ok z ∧ uncompress toyHash toyDeflate z = .ok nd :=
+  ⟨_, rfl, uncompress_compress toyHash toyDeflate toyDeflate_laws nd _ nd_rt rfl rfl⟩
+
+example : ∃ z, compress toyDeflate2 nd = .ok z ∧ uncompress toyHash toyDeflate2 z = .ok nd :=
+  ⟨_, rfl, uncompress_compress toyHash toyDeflate2 toyDeflate2_laws nd _ nd_rt rfl rfl⟩
+
 /-- whatever `uncompress` returns has the declared digest -/
 theorem uncompress_digest (e z : Env) (hz : uncompress h Z e = .ok z) : z.digest = e.digest :=
   Obs.uncompress_digest_eq h Z hz
+
+example : ∃ z x, uncompress toyHash toyDeflate z = .ok x ∧ x.digest = z.digest := by
+  have hu := uncompress_compress toyHash toyDeflate toyDeflate_laws nd _ nd_rt rfl rfl
+  exact ⟨_, _, hu, uncompress_digest _ _ _ _ hu⟩
+
+/-- C13: across `compress` then `uncompress` the digest is kept, whatever the original was
+(also an already compressed one, for which `compress` changes nothing and `uncompress`
+returns its content) -/
+theorem uncompress_compress_digest (e z x : Env) (hz : compress Z e = .ok z)
+    (hx : uncompress h Z z = .ok x) : x.digest = e.digest :=
+  (Obs.uncompress_digest_eq h Z hx).trans (compress_keeps_digest Z e z hz)
+
+example : ∃ z x, compress toyDeflate nd = .ok z ∧ uncompress toyHash toyDeflate z = .ok x ∧
+    x.digest = nd.digest :=
+  ⟨_, _, rfl, uncompress_compress toyHash toyDeflate toyDeflate_laws nd _ nd_rt rfl rfl, rfl⟩
 
 /-- `uncompress` succeeds exactly when the data uncompresses and decodes to an envelope
 with the declared digest -/
@@ -128,11 +160,23 @@ theorem uncompress_bad_digest (c : CompMsg) (d : Digest) (data : Bytes) (x : Env
   unfold uncompress
   simp only [hm, hd, hb, if_true]
 
+/- the encoding of the leaf `"a"` declared with the digest 7
+(`Compressed::from_uncompressed_data(data, Some(other))` lets one do that): refused -/
+example : uncompress toyHash toyDeflate (.compressed (compressedOf toyDeflate (encode lf)) ⟨7⟩) =
+    .err "InvalidDigest" :=
+  uncompress_bad_digest toyHash toyDeflate _ ⟨7⟩ (encode lf) lf
+    (Obs.uncompressMsg_compressedOf toyDeflate_laws _) lf_rt (by decide)
+
 /-- C13: data that does not uncompress is refused -/
 theorem uncompress_corrupt (c : CompMsg) (d : Digest) (hm : uncompressMsg Z c = none) :
     uncompress h Z (.compressed c d) = .err "dep:uncompress-failed" := by
   unfold uncompress
   simp only [hm]
+
+/- three bytes declared as the deflated form of ten, which the toy does not inflate -/
+example : uncompress toyHash toyDeflate2 (.compressed ⟨0, 10, [9, 9, 9]⟩ ⟨7⟩) =
+    .err "dep:uncompress-failed" :=
+  uncompress_corrupt toyHash toyDeflate2 _ _ (by decide)
 
 /-- ... in particular deflated data that does not inflate, or inflates to something with
 another checksum -/
@@ -147,6 +191,12 @@ theorem uncompress_corrupt_deflated (c : CompMsg) (d : Digest) (hl : c.data.leng
   · have hb : (Z.crc u == c.checksum) = false := by simpa using hcrc
     simp only [hu, hb, Bool.false_eq_true, if_false]
 
+/- inflates, but to something with another checksum -/
+example : uncompress toyHash toyDeflate2 (.compressed ⟨0, 10, [2, 9, 9]⟩ ⟨7⟩) =
+    .err "dep:uncompress-failed" :=
+  uncompress_corrupt_deflated toyHash toyDeflate2 _ _ (by decide)
+    (Or.inr ⟨[9, 9], rfl, by decide⟩)
+
 /-- data that decodes to no envelope is refused with the decoder's error -/
 theorem uncompress_undecodable (c : CompMsg) (d : Digest) (data : Bytes) (msg : String)
     (hm : uncompressMsg Z c = some data) (hd : decode h data = .err msg) :
@@ -154,9 +204,15 @@ theorem uncompress_undecodable (c : CompMsg) (d : Digest) (data : Bytes) (msg : 
   unfold uncompress
   simp only [hm, hd]
 
+example : uncompress toyHash toyDeflate (.compressed ⟨0, 1, [0xff]⟩ ⟨7⟩) = .err "cbor:bad-header" :=
+  uncompress_undecodable toyHash toyDeflate _ _ [0xff] _ rfl rfl
+
 theorem uncompress_not_compressed (e : Env) (hc : e.isCompressed = false) :
     uncompress h Z e = .err "NotCompressed" :=
   Obs.uncompress_not_compressed h Z hc
+
+example : uncompress toyHash toyDeflate nd = .err "NotCompressed" :=
+  uncompress_not_compressed _ _ _ rfl
 
 theorem uncompress_no_panic (e : Env) (s : String) : uncompress h Z e ≠ .panic s :=
   Obs.uncompress_np h Z e s
@@ -168,6 +224,10 @@ theorem compressSubject_of_compressed (e : Env) (hc : e.subject.isCompressed = t
     compressSubject h Z e = .ok e := by
   unfold compressSubject
   rw [if_pos hc]
+
+example (c : CompMsg) (d : Digest) :
+    compressSubject toyHash toyDeflate (.compressed c d) = .ok (.compressed c d) :=
+  compressSubject_of_compressed _ _ _ rfl
 
 /-- exact refusal conditions -/
 theorem compressSubject_ok_iff (e : Env) (hi : Inv h e) :
@@ -182,6 +242,9 @@ theorem compressSubject_ok_iff (e : Env) (hi : Inv h e) :
   | false =>
     rw [Obs.compressSubject_eq h Z hi hc]
     cases e.subject.isEncrypted <;> cases e.subject.isElided <;> simp
+
+example : ∃ z, compressSubject toyHash toyDeflate nd = .ok z :=
+  (compressSubject_ok_iff toyHash toyDeflate nd nd_inv).mpr ⟨rfl, rfl⟩
 
 /-- the two errors, exactly -/
 theorem compressSubject_err_iff (e : Env) (x : String) (hi : Inv h e) :
@@ -201,6 +264,10 @@ theorem compressSubject_err_iff (e : Env) (x : String) (hi : Inv h e) :
     | elided d => simp [Env.isEncrypted, Env.isElided, eq_comm]
     | _ => simp [Env.isEncrypted, Env.isElided]
 
+example : compressSubject toyHash toyDeflate (.elided ⟨5⟩) = .err "AlreadyElided" :=
+  (compressSubject_err_iff toyHash toyDeflate (.elided ⟨5⟩) _
+    ⟨trivial, by simp [Canon, Digest.Valid]⟩).mpr (Or.inr ⟨rfl, rfl⟩)
+
 /-- no panic: the `unwrap` inside `replace_subject` never fires on a canonical envelope -/
 theorem compressSubject_no_panic (e : Env) (hi : Inv h e) (s : String) :
     compressSubject h Z e ≠ .panic s := by
@@ -209,6 +276,9 @@ theorem compressSubject_no_panic (e : Env) (hi : Inv h e) (s : String) :
   | false =>
     rw [Obs.compressSubject_eq h Z hi hc]
     cases e.subject.isEncrypted <;> cases e.subject.isElided <;> (intro hh; cases hh)
+
+example (s : String) : compressSubject toyHash toyDeflate nd2 ≠ .panic s :=
+  compressSubject_no_panic toyHash toyDeflate nd2 nd2_inv s
 
 /-- the result: the subject is replaced by its compressed form; the assertions, the case
 (node or not) and the digest are unchanged -/
@@ -225,7 +295,7 @@ theorem compressSubject_shape (e z : Env) (hi : Inv h e) (hc : e.subject.isCompr
       cases e <;> exact ⟨rfl, rfl, rfl, rfl⟩
 
 /-- C13: compressing the subject keeps the digest -/
-theorem compressSubject_digest (e z : Env) (hi : Inv h e) (hz : compressSubject h Z e = .ok z) :
+theorem compressSubject_keeps_digest (e z : Env) (hi : Inv h e) (hz : compressSubject h Z e = .ok z) :
     z.digest = e.digest := by
   cases hc : e.subject.isCompressed with
   | true =>
@@ -251,11 +321,21 @@ theorem compressSubject_inv (e z : Env) (hi : Inv h e) (hH : ∀ b, (h.H b).Vali
       · cases hz
         exact Obs.compressSubjectSpec_inv h Z hi (Obs.digest_valid hH (Obs.inv_subject hi))
 
+example : ∃ z, compressSubject toyHash toyDeflate nd2 = .ok z ∧ z.assertions = nd2.assertions ∧
+    z.digest = nd2.digest ∧ z.subject.isCompressed = true ∧ Inv toyHash z := by
+  obtain ⟨z, hz⟩ := (compressSubject_ok_iff toyHash toyDeflate nd2 nd2_inv).mpr ⟨rfl, rfl⟩
+  have hs := compressSubject_shape toyHash toyDeflate nd2 z nd2_inv rfl hz
+  exact ⟨z, hz, hs.2.1, compressSubject_keeps_digest _ _ _ _ nd2_inv hz, by rw [hs.1]; rfl,
+    compressSubject_inv _ _ _ _ nd2_inv toyHash_valid hz⟩
+
 /-! ### `uncompress_subject` -/
 
 theorem uncompressSubject_not_compressed (e : Env) (hc : e.subject.isCompressed = false) :
     uncompressSubject h Z e = .ok e :=
   Obs.uncompressSubject_not_compressed h Z hc
+
+example : uncompressSubject toyHash toyDeflate nd = .ok nd :=
+  uncompressSubject_not_compressed _ _ _ rfl
 
 /-- the repaired `uncompress_subject` (F6): a node keeps its assertion list and gets the
 uncompressed envelope as its subject — also when that envelope is itself a node; nothing
@@ -264,6 +344,18 @@ theorem uncompressSubject_node (cs s : Env) (as : List Env) (d : Digest)
     (hi : Inv h (.node cs as d)) (hs : uncompress h Z cs = .ok s) :
     uncompressSubject h Z (.node cs as d) = .ok (.node s as d) :=
   Obs.uncompressSubject_node_form h Z hi rfl hs
+
+/- a node whose compressed subject uncompresses to a node (the F6 shape) -/
+example : uncompressSubject toyHash toyDeflate
+    (.node (.compressed (compressedOf toyDeflate (encode nd)) nd.digest) [asr2]
+      (toyHash.ofDigests [nd.digest, asr2.digest])) = .ok nd2 :=
+  uncompressSubject_node toyHash toyDeflate _ nd [asr2] _
+    (by
+      refine ⟨⟨trivial, nd2_inv.1.2⟩, ?_⟩
+      have hc := nd2_inv.2
+      simp only [nd2, Canon] at hc ⊢
+      exact ⟨toyHash_valid _, hc.2⟩)
+    (Obs.uncompress_compressedOf toyHash toyDeflate_laws nd_rt)
 
 /-- C13: uncompressing the subject after compressing it returns the identical envelope —
 for every subject case (leaf, known value, wrapped, assertion, and, for an envelope with
@@ -299,6 +391,24 @@ theorem uncompressSubject_compressSubject (L : DeflateLaws Z) (e z : Env) (hi : 
       | encrypted m d => rename_i he _; exact absurd rfl he
       | compressed c d => cases hc
 
+/- all hypotheses hold together: a leaf subject, ... -/
+example : ∃ z, compressSubject toyHash toyDeflate nd = .ok z ∧
+    uncompressSubject toyHash toyDeflate z = .ok nd := by
+  obtain ⟨z, hz⟩ := (compressSubject_ok_iff toyHash toyDeflate nd nd_inv).mpr ⟨rfl, rfl⟩
+  exact ⟨z, hz, uncompressSubject_compressSubject _ _ toyDeflate_laws _ _ nd_inv lf_rt rfl hz⟩
+
+/- ... a subject that is itself a node (with the deflating toy), ... -/
+example : ∃ z, compressSubject toyHash toyDeflate2 nd2 = .ok z ∧
+    uncompressSubject toyHash toyDeflate2 z = .ok nd2 := by
+  obtain ⟨z, hz⟩ := (compressSubject_ok_iff toyHash toyDeflate2 nd2 nd2_inv).mpr ⟨rfl, rfl⟩
+  exact ⟨z, hz, uncompressSubject_compressSubject _ _ toyDeflate2_laws _ _ nd2_inv nd_rt rfl hz⟩
+
+/- ... an envelope without assertions -/
+example : ∃ z, compressSubject toyHash toyDeflate lf = .ok z ∧
+    uncompressSubject toyHash toyDeflate z = .ok lf := by
+  obtain ⟨z, hz⟩ := (compressSubject_ok_iff toyHash toyDeflate lf lf_inv).mpr ⟨rfl, rfl⟩
+  exact ⟨z, hz, uncompressSubject_compressSubject _ _ toyDeflate_laws _ _ lf_inv lf_rt rfl hz⟩
+
 /-- C13: uncompressing the subject keeps the digest -/
 theorem uncompressSubject_digest (e z : Env) (hi : Inv h e)
     (hz : uncompressSubject h Z e = .ok z) : z.digest = e.digest := by
@@ -323,6 +433,26 @@ theorem uncompressSubject_digest (e z : Env) (hi : Inv h e)
       exact Obs.uncompress_digest_eq h Z hz
     | _ => cases hc
 
+example : ∃ z x, Inv toyHash z ∧ uncompressSubject toyHash toyDeflate z = .ok x ∧ x.digest = z.digest := by
+  obtain ⟨z, hz⟩ := (compressSubject_ok_iff toyHash toyDeflate nd nd_inv).mpr ⟨rfl, rfl⟩
+  have hi := compressSubject_inv _ _ _ _ nd_inv toyHash_valid hz
+  have hu := uncompressSubject_compressSubject _ _ toyDeflate_laws _ _ nd_inv lf_rt rfl hz
+  exact ⟨z, nd, hi, hu, uncompressSubject_digest _ _ _ _ hi hu⟩
+
+/-- C13: across `compress_subject` then `uncompress_subject` the digest is kept, whatever the
+subject was (also an already compressed one) -/
+theorem uncompressSubject_compressSubject_digest (e z x : Env) (hi : Inv h e)
+    (hH : ∀ b, (h.H b).Valid) (hz : compressSubject h Z e = .ok z)
+    (hx : uncompressSubject h Z z = .ok x) : x.digest = e.digest :=
+  (uncompressSubject_digest h Z z x (compressSubject_inv h Z e z hi hH hz) hx).trans
+    (compressSubject_keeps_digest h Z e z hi hz)
+
+example : ∃ z x, compressSubject toyHash toyDeflate nd = .ok z ∧
+    uncompressSubject toyHash toyDeflate z = .ok x ∧ x.digest = nd.digest := by
+  obtain ⟨z, hz⟩ := (compressSubject_ok_iff toyHash toyDeflate nd nd_inv).mpr ⟨rfl, rfl⟩
+  have hu := uncompressSubject_compressSubject _ _ toyDeflate_laws _ _ nd_inv lf_rt rfl hz
+  exact ⟨z, nd, hz, hu, uncompressSubject_compressSubject_digest _ _ _ _ _ nd_inv toyHash_valid hz hu⟩
+
 /-- no panic: the decoder never panics and a canonical node has an assertion -/
 theorem uncompressSubject_no_panic (e : Env) (hc : Canon e) (s : String) :
     uncompressSubject h Z e ≠ .panic s := by
@@ -345,6 +475,9 @@ theorem uncompressSubject_no_panic (e : Env) (hc : Canon e) (s : String) :
       rw [Obs.uncompressSubject_nonnode_form h Z rfl rfl] at hz
       exact Obs.uncompress_np h Z _ s hz
     | _ => cases hs
+
+example (s : String) : uncompressSubject toyHash toyDeflate nd ≠ .panic s :=
+  uncompressSubject_no_panic toyHash toyDeflate nd nd_inv.2 s
 
 end
 end EnvVerif
